@@ -88,6 +88,35 @@ Definition item126 (op : N) : option item :=
   else if op =? 0x8C then Some IPkt else if op =? 0x08 then Some IIrq else if op =? 0x86 then Some IFreq else if op =? 0x8E then Some ITxParams
   else if op =? 0x95 then Some IPaConfig else if op =? 0x88 then Some ICadParams else None.
 
+(* a command that reaches a chip able to take it *)
+Definition spi126_cmd (x : mctx) (m : mon) (w r : list N) : mon :=
+  let op := nthN w 0 in
+  if op =? 0x84 then
+    let warm := Nat.ltb 1 (length w) && negb (N.land (nthN w 1) 4 =? 0) in
+    with_mode (if warm then m else with_valid m none_valid) CSleep
+  else if op =? 0x80 then with_mode m CStby
+  else if op =? 0xC1 then with_mode m CFs
+  else if (op =? 0x83) || (op =? 0xD1) then with_mode (start x m StTx) CTx
+  else if op =? 0x82 then
+    with_mode (start x m StRx) (if (nthN w 1 =? 0xff) && (nthN w 2 =? 0xff) && (nthN w 3 =? 0xff) && Nat.leb 4 (length w) then CRxc else CRx1)
+  else if op =? 0x94 then with_awake (with_mode (start x m StRx) CDuty) true
+  else if op =? 0xC5 then with_mode (start x m StCad) CCad
+  else if op =? 0x8A then with_valid m (upd (upd (upd (valid m) IMod false) IPkt false) IPktType true)
+  else if (op =? 0x0D) && Nat.leb 5 (length w) && (nthN w 1 =? 0x07) && (nthN w 2 =? 0x40) then add_item m ISync
+  else match item126 op with
+       | Some i => add_item m i
+       | None =>
+         if (op =? 0x12) && Nat.leb 3 (length r) then
+           let flags := nthN r 1 * 256 + nthN r 2 in
+           let has b := negb (N.land flags b =? 0) in
+           match cm m with
+           | CTx => if has 0x201 then with_mode m CStby else m
+           | CRx1 | CDuty => if has 0x202 then with_mode m CStby else m
+           | CCad => if has 0x080 then with_mode m CStby else m
+           | _ => m
+           end
+         else m
+       end.
 Definition spi126 (x : mctx) (m : mon) (w r : list N) : mon :=
   let op := nthN w 0 in
   match cm m with
@@ -95,32 +124,7 @@ Definition spi126 (x : mctx) (m : mon) (w r : list N) : mon :=
   | _ =>
     if cmode_eqb (cm m) CDuty && negb (awake m) && (op =? 0xC0) then with_awake m true
     else if cmode_eqb (cm m) CDuty && negb (awake m) && negb (readonly126 op) then flag_asleep m
-    else if op =? 0x84 then
-      let warm := Nat.ltb 1 (length w) && negb (N.land (nthN w 1) 4 =? 0) in
-      with_mode (if warm then m else with_valid m none_valid) CSleep
-    else if op =? 0x80 then with_mode m CStby
-    else if op =? 0xC1 then with_mode m CFs
-    else if (op =? 0x83) || (op =? 0xD1) then with_mode (start x m StTx) CTx
-    else if op =? 0x82 then
-      with_mode (start x m StRx) (if (nthN w 1 =? 0xff) && (nthN w 2 =? 0xff) && (nthN w 3 =? 0xff) && Nat.leb 4 (length w) then CRxc else CRx1)
-    else if op =? 0x94 then with_awake (with_mode (start x m StRx) CDuty) true
-    else if op =? 0xC5 then with_mode (start x m StCad) CCad
-    else if op =? 0x8A then with_valid m (upd (upd (upd (valid m) IMod false) IPkt false) IPktType true)
-    else if (op =? 0x0D) && Nat.leb 5 (length w) && (nthN w 1 =? 0x07) && (nthN w 2 =? 0x40) then add_item m ISync
-    else match item126 op with
-         | Some i => add_item m i
-         | None =>
-           if (op =? 0x12) && Nat.leb 3 (length r) then
-             let flags := nthN r 1 * 256 + nthN r 2 in
-             let has b := negb (N.land flags b =? 0) in
-             match cm m with
-             | CTx => if has 0x201 then with_mode m CStby else m
-             | CRx1 | CDuty => if has 0x202 then with_mode m CStby else m
-             | CCad => if has 0x080 then with_mode m CStby else m
-             | _ => m
-             end
-           else m
-         end
+    else spi126_cmd x m w r
   end.
 
 Definition item127 (a : N) : option item :=
